@@ -1027,6 +1027,59 @@ def _complementary(s0: str, r0: lin.Lin, s1: str, r1: lin.Lin) -> str:
     return "?"
 
 
+def r12_no_snapshot_across_admission(ctx: Context) -> None:
+    ctx.rule("C10.R12", "admission control in a policy (a loop that creates a cancellation for a task and removes it from the list of "
+                        "tasks to decide) is final: no local bound from that list before the loop is read after it outside logging - a "
+                        "copy taken earlier still holds the cancelled task, which then gets a second decision")
+    n = 0
+    for rel, cname in POLICIES:
+        cls = ctx.repo.mod(rel).cls(cname)
+        for fn in methods(cls).values():
+            for rm in calls_in(fn, "remove"):
+                if not (isinstance(rm.func, ast.Attribute) and isinstance(rm.func.value, ast.Name) and len(rm.args) == 1):
+                    continue
+                lst = rm.func.value.id
+                loop = parent(rm)
+                while loop is not None and not isinstance(loop, (ast.For, ast.While)):
+                    loop = parent(loop)
+                if loop is None or not any(call_name(c) == "create_task_cancellation" for c in calls_in(loop)):
+                    continue
+                n += 1
+                key = f"{rel}::{cname}.{fn.name}|`{lst}` is read afresh after admission control"
+                start, end = loop.lineno, getattr(loop, "end_lineno", loop.lineno)
+                stale = []
+                for a in ast.walk(fn):
+                    if not (isinstance(a, ast.Assign) and len(a.targets) == 1 and isinstance(a.targets[0], ast.Name) and a.lineno < start):
+                        continue
+                    x = a.targets[0].id
+                    if x == lst or not any(isinstance(y, ast.Name) and y.id == lst and isinstance(y.ctx, ast.Load) for y in ast.walk(a.value)):
+                        continue
+                    # scalars derived from the list (its length, an emptiness test) are not copies of its contents
+                    if isinstance(a.value, (ast.Compare, ast.BoolOp)) or (isinstance(a.value, ast.Call) and call_name(a.value) in ("len", "bool", "any", "all", "sum", "min", "max")):
+                        continue
+                    rebound_later = any(isinstance(b, ast.Name) and b.id == x and isinstance(b.ctx, ast.Store) and b.lineno > end for b in ast.walk(fn))
+                    if rebound_later:
+                        continue
+                    for u in ast.walk(fn):
+                        if isinstance(u, ast.Name) and u.id == x and isinstance(u.ctx, ast.Load) and u.lineno > end:
+                            q, logging_only = parent(u), False
+                            while q is not None and q is not fn:
+                                if isinstance(q, ast.Call) and isinstance(q.func, ast.Attribute) and "_logger" in norm(q.func.value):
+                                    logging_only = True
+                                q = parent(q)
+                            if not logging_only:
+                                stale.append((x, a, u))
+                                break
+                if stale:
+                    x, a, u = stale[0]
+                    ctx.violation("C10.R12", key, loc(u), f"`{x}` was bound from `{lst}` at line {a.lineno}, before the admission loop at lines "
+                                  f"{start}-{end} removes the cancelled tasks from `{lst}`, and is read after it: a task that was just given a "
+                                  "cancellation is decided a second time")
+                else:
+                    ctx.ok("C10.R12", key, loc(loop), f"no copy of `{lst}` taken before lines {start}-{end} is read afterwards")
+    ctx.floor("C10.R12", "admission loops (cancel + remove)", n, 1)
+
+
 def run(ctx: Context) -> None:
     ctx.isolate(r1_side_effect_free)
     from . import c04
@@ -1040,6 +1093,7 @@ def run(ctx: Context) -> None:
     ctx.isolate(batch_aggregates)
     ctx.isolate(r7_config_not_rewritten)
     ctx.isolate(r8_filter_visits_every_graph)
+    ctx.isolate(r12_no_snapshot_across_admission)
     from . import c15, c18
     ctx.isolate(c18.r2b_parameter_agreement, _alias={"C18.R2b": "C10.R9"})
     ctx.isolate(c15.r2_full_batches, _alias={"C15.R2": "C10.R10"})
